@@ -1,6 +1,6 @@
 """C11 — Poisson / multinomial likelihoods over jointly unmasked entries, optimal theta."""
 import numpy as np
-from scipy.special import gammaln
+from scipy.special import gammaln, xlogy
 
 from vf.rec import rng_for, relerr
 from vf import gen
@@ -25,15 +25,27 @@ def plan(tier, seed):
 
 def required(tier):
     r = {"ll": 100, "ll_per_bin": 100, "ll_multinom": 100, "optimal_sfs_scaling": 100, "scale-invariant": 100,
-            "multinom-is-max": 100, "mask-removes-term": 100, "autofold": 20, "data-maximises": 30, "linear-residual": 100, "residual-level-mask": 100, "anscombe-residual": 100}
+            "multinom-is-max": 100, "mask-removes-term": 100, "autofold": 20, "data-maximises": 30, "linear-residual": 100, "residual-level-mask": 100, "anscombe-residual": 100, "edited-model-re-evaluated": 300, "data-as-model": 30, "zero-cell-contributes-nothing": 3}
     if tier != "quick":
         r.update({'ambient-ll_multinom': 20})
     return r
 
 
 def poisson_terms(m, d):
+    # log Poisson(d | m); a zero count under a zero mean has probability one (xlogy(0, 0) = 0)
     with np.errstate(all="ignore"):
-        return -m + d * np.log(m) - gammaln(d + 1.0)
+        return -m + xlogy(d, m) - gammaln(d + 1.0)
+
+
+def reference_sets(model, data):
+    """(M, D, J): model values (folded by explicit index arithmetic when the data are folded), data values, jointly unmasked set."""
+    if data.folded and not model.folded:
+        M, Mm = gen.fold_ref(model.data, np.asarray(np.ma.getmaskarray(model)))
+        Mm.flat[0] = True
+    else:
+        M, Mm = np.asarray(model.data), np.asarray(np.ma.getmaskarray(model))
+    D, Dm = np.asarray(data.data), np.asarray(np.ma.getmaskarray(data))
+    return M, D, ~(Mm | Dm)
 
 
 def run(spec, rec):
@@ -52,6 +64,7 @@ def run(spec, rec):
         folded_data = bool(rng.random() < 0.35)
         mdat = rng.uniform(0.05, 9.0, size=shape) * 10 ** rng.uniform(-1, 2)
         mmask = rng.random(shape) < rng.choice([0.0, 0.1, 0.2])
+        zero_model = bool(rng.random() < 0.12)
         model = Spectrum(mdat, mask=mmask, mask_corners=corners)
         # data: projected from a bigger integer spectrum -> non-integer entries, with zeros
         big = Spectrum(rng.poisson(3.0, size=tuple(s + 2 for s in shape)).astype(float), mask_corners=False)
@@ -61,6 +74,13 @@ def run(spec, rec):
         data = Spectrum(ddat, mask=dmask, mask_corners=corners)
         if folded_data:
             data = data.fold()
+        if zero_model:
+            # a model that is exactly zero in some cells where the data are zero too (the spectrum of the data itself used as model,
+            # a class no sampled site can fall in): such a cell has probability one and contributes nothing
+            z = np.asarray(data.data) == 0
+            if folded_data:
+                z = z & z[(slice(None, None, -1),) * ndim]
+            model.data[z] = 0.0
         # reference index set and arrays
         if folded_data:
             fm_d, fm_m = gen.fold_ref(model.data, np.asarray(model.mask))
@@ -81,6 +101,11 @@ def run(spec, rec):
         if not rec.case("c%d-%d" % (spec["b"], ci), desc, nontrivial=not np.array_equal(Mm, Dm)):
             continue
         tags = {"ndim": ndim, "corners_masked": corners, "folded_data": folded_data, "same_masks": bool(np.array_equal(Mm, Dm))}
+        Z = J & (M == 0)               # jointly unmasked cells with model == data == 0
+        if zero_model and (not Z.any() or (D[Z] != 0).any() or M[J].sum() <= 0):
+            zero_model = False
+            Z = J & False
+        tags["model_has_zero_cells"] = bool(Z.any())
         snap = (model.data.copy(), np.asarray(model.mask).copy(), data.data.copy(), np.asarray(data.mask).copy())
 
         ll_ref = float(np.sum(poisson_terms(M[J], D[J])))
@@ -91,10 +116,15 @@ def run(spec, rec):
         ok, per = rec.noraise("returns", lambda: Inference.ll_per_bin(model, data), site="Inference.ll_per_bin", tags=tags)
         if ok:
             pm = np.asarray(np.ma.getmaskarray(per))
-            good = np.array_equal(pm, ~J)
+            # (a cell with model == data == 0 contributes 0 whether it is shown or hidden: not compared)
+            good = np.array_equal(pm[~Z], (~J)[~Z])
             rec.check("ll_per_bin-mask", good, site="Inference.ll_per_bin", tags=tags, observed=pm.astype(int), expected=(~J).astype(int))
             if good:
-                rec.close("ll_per_bin", relerr(np.asarray(per.data)[J], poisson_terms(M[J], D[J])), TOL, site="Inference.ll_per_bin", tags=tags)
+                Jz = J & ~Z
+                rec.close("ll_per_bin", relerr(np.asarray(per.data)[Jz], poisson_terms(M[Jz], D[Jz])), TOL, site="Inference.ll_per_bin", tags=tags)
+                if Z.any():
+                    shown = Z & ~pm
+                    rec.check("zero-cell-contributes-nothing", bool(np.all(np.asarray(per.data)[shown] == 0)), site="Inference.ll_per_bin", tags=tags)
         theta_ref = float(D[J].sum() / M[J].sum())
         ok, th = rec.noraise("returns", lambda: Inference.optimal_sfs_scaling(model, data), site="Inference.optimal_sfs_scaling", tags=tags)
         if ok:
@@ -128,14 +158,20 @@ def run(spec, rec):
             if ok3:
                 rec.close("optimally_scaled_sfs", relerr(np.asarray(sc.data)[~np.asarray(model.mask)], theta_ref * model.data[~np.asarray(model.mask)]),
                           TOL, site="Inference.optimally_scaled_sfs", tags=tags)
+        if zero_model:
+            rec.hit("zero-model-cells", int(Z.sum()))
+            continue
         if folded_data:
             ok, lla = rec.noraise("returns", lambda: Inference.ll(model.fold(), data), site="Inference.ll", tags=tags)
             if ok:
                 rec.close("autofold", abs(float(lla) - ll_ref) / max(abs(ll_ref), 1.0), TOL, site="Inference.ll", tags=tags)
         # model == const*data maximises the multinomial likelihood over all models (Gibbs inequality)
-        if not folded_data and D[J].min() > 0:
-            dd = Spectrum(np.where(D > 0, D, 1.0), mask=np.asarray(data.mask), mask_corners=False)
+        if not folded_data:
+            # (zero counts stay in: a model proportional to the data is zero there too, and those cells contribute nothing)
+            dd = Spectrum(D.copy(), mask=np.asarray(data.mask), mask_corners=False)
             top = float(Inference.ll_multinom(float(rng.uniform(0.1, 10)) * dd, dd))
+            rec.close("data-as-model", abs(top - float(np.sum(poisson_terms(D[~np.asarray(data.mask)], D[~np.asarray(data.mask)])))) / max(abs(top), 1.0), TOL,
+                      site="Inference.ll_multinom", tags=dict(tags, zeros_in_data=bool((D[~np.asarray(data.mask)] == 0).any())))
             worse = 0
             for _ in range(4):
                 pert = dd * np.exp(rng.normal(scale=float(rng.choice([1e-3, 0.05, 0.5])), size=shape))
@@ -211,6 +247,40 @@ def run(spec, rec):
                         ref2 = float(np.sum(poisson_terms(th2 * M[J2], D[J2])))
                         rec.close("mask-removes-term", abs(float(lm2) - ref2) / max(abs(ref2), 1.0), TOL, site="Inference.ll_multinom", tags=t2,
                                   observed=float(lm2), expected=ref2)
+        # the same model OBJECT edited in place (an entry masked, an entry overwritten, the whole model rescaled) and evaluated again:
+        # every function is a function of the current contents of its arguments
+        # (done last; the untouched check comes first)
         same = (np.array_equal(model.data, snap[0]) and np.array_equal(np.asarray(model.mask), snap[1])
                 and np.array_equal(data.data, snap[2]) and np.array_equal(np.asarray(data.mask), snap[3]))
         rec.check("inputs-untouched", same, site="Inference", tags=tags)
+        if nJ >= 4:
+            um = np.argwhere(~np.asarray(np.ma.getmaskarray(model)))
+            for edit in ("mask", "entry", "rescale"):
+                idx = tuple(int(v) for v in um[int(rng.integers(len(um)))])
+                if edit == "mask":
+                    model.mask[idx] = True
+                elif edit == "entry":
+                    model[idx] = float(model.data[idx] * rng.uniform(1.5, 4))
+                else:
+                    model *= float(rng.uniform(0.3, 3))
+                M3, D3, J3 = reference_sets(model, data)
+                if J3.sum() < 3 or D3[J3].sum() <= 0:
+                    break
+                t3 = dict(tags, edit=edit)
+                ref = float(np.sum(poisson_terms(M3[J3], D3[J3])))
+                ok, v = rec.noraise("returns", lambda: Inference.ll(model, data), site="Inference.ll", tags=t3)
+                if ok:
+                    rec.close("edited-model-re-evaluated", abs(float(v) - ref) / max(abs(ref), 1.0), TOL, site="Inference.ll", tags=t3, observed=float(v), expected=ref)
+                th3 = float(D3[J3].sum() / M3[J3].sum())
+                ok, v = rec.noraise("returns", lambda: Inference.optimal_sfs_scaling(model, data), site="Inference.optimal_sfs_scaling", tags=t3)
+                if ok:
+                    rec.close("edited-model-re-evaluated", abs(float(v) - th3) / th3, TOL, site="Inference.optimal_sfs_scaling", tags=t3, observed=float(v), expected=th3)
+                ref = float(np.sum(poisson_terms(th3 * M3[J3], D3[J3])))
+                ok, v = rec.noraise("returns", lambda: Inference.ll_multinom(model, data), site="Inference.ll_multinom", tags=t3)
+                if ok:
+                    rec.close("edited-model-re-evaluated", abs(float(v) - ref) / max(abs(ref), 1.0), TOL, site="Inference.ll_multinom", tags=t3, observed=float(v), expected=ref)
+                ok, r = rec.noraise("returns", lambda: Inference.linear_Poisson_residual(model, data), site="Inference.linear_Poisson_residual", tags=t3)
+                if ok and np.array_equal(np.asarray(np.ma.getmaskarray(r)), ~J3):
+                    rec.close("edited-model-re-evaluated", relerr(np.asarray(r.data)[J3], ((M3 - D3) / np.sqrt(M3))[J3]), TOL, site="Inference.linear_Poisson_residual", tags=t3)
+                elif ok:
+                    rec.check("edited-model-re-evaluated", False, site="Inference.linear_Poisson_residual", tags=t3, observed="mask differs from the joint mask of the edited model")
